@@ -87,6 +87,16 @@ func Render(e any) string {
 	switch n := e.(type) {
 	case *Match:
 		sel := RenderSel(n.Sel)
+		if n.JP {
+			sel = RenderJSONPointer(n.Sel)
+		}
+		RenderLit := RenderLit
+		switch n.Style {
+		case StyleQuoted:
+			RenderLit = strconv.Quote
+		case StyleBare:
+			RenderLit = func(s string) string { return s }
+		}
 		switch n.Op {
 		case OpEq:
 			return sel + " == " + RenderLit(n.Lit)
@@ -129,7 +139,11 @@ func Render(e any) string {
 		case BindBoth:
 			b = n.Idx + ", " + n.Val
 		}
-		return kw + RenderSel(n.Sel) + " as " + b + " { " + Render(n.Body) + " }"
+		qs := RenderSel(n.Sel)
+		if n.JP {
+			qs = RenderJSONPointer(n.Sel)
+		}
+		return kw + qs + " as " + b + " { " + Render(n.Body) + " }"
 	}
 	panic("render")
 }
